@@ -79,7 +79,7 @@ class _K:
 
 
 class CFG:
-    def __init__(self, fn, raises=None, handler_type=None, swallows=None, raise_atoms=None):
+    def __init__(self, fn, raises=None, handler_type=None, swallows=None, raise_atoms=None, flatten=None):
         """
         fn: FunctionDef.  raises(ast_node) -> iterable of atoms raised by that simple statement / test /
         with-item (None or empty: does not raise).  handler_type(expr) -> builtin exception class (or tuple
@@ -88,6 +88,9 @@ class CFG:
         non-builtin classes.
         """
         self.fn = fn
+        # flatten=(class_node, stop_names): a call self._helper(...) counts as making the calls of the helper's
+        # body as well (private helpers a refactoring extracted), except for the named primitives
+        self.flatten = flatten
         self.raises = raises or (lambda n: ())
         self.handler_type = handler_type
         self.swallows = swallows or (lambda item: frozenset())
@@ -409,6 +412,16 @@ class CFG:
             for x in walk_local(e):
                 if isinstance(x, ast.Call):
                     yield x
+                    if self.flatten is not None:
+                        from .astutil import flat_self_calls
+                        cls, stop = self.flatten
+                        f = x.func
+                        if isinstance(f, ast.Attribute) and isinstance(f.value, ast.Name) and f.value.id == 'self' \
+                                and f.attr not in stop:
+                            for m in cls.body:
+                                if isinstance(m, ast.FunctionDef) and m.name == f.attr:
+                                    for y in flat_self_calls(m.body, cls, stop=stop, _seen={f.attr}):
+                                        yield y
 
     def reachable(self, sources, avoid=(), edge_ok=None):
         avoid = {a.id if isinstance(a, Node) else a for a in avoid}
